@@ -1,6 +1,8 @@
 #!/bin/sh
-# usage: goal.sh file.v LINE  -- show the proof state after line LINE (cwd = /verif/coq)
+# usage: goal.sh file.v LINE [MAXLINES] -- show the proof state after line LINE (cwd = /verif/coq)
 f=$1; n=$2
-head -n $n $f > /tmp/_goal.v
-echo "Show. " >> /tmp/_goal.v
-coqc -Q . UV /tmp/_goal.v 2>&1 | grep -v "^WARNING conda" | head -${3:-60}
+d=$(mktemp -d /tmp/goal.XXXXXX)
+head -n $n $f > $d/g_goal.v
+echo "Show. " >> $d/g_goal.v
+coqc -Q . UV $d/g_goal.v 2>&1 | grep -v "^WARNING conda" | head -${3:-60}
+rm -rf $d
